@@ -149,7 +149,13 @@ CHECKS = {
         text="Lean theorems for every well-founded layer graph and every input list: result is duplicate-free with "
              "exactly the requested members, bases precede derived layers, the unit layer is first, and (for "
              "injective names) every permutation of the input gives the same list; model tied to order_by_bases / "
-             "gather_layers / layer_sort_key by exhaustive small DAGs + random DAGs; clauses monitored on real results.",
+             "gather_layers / layer_sort_key by exhaustive small DAGs + random DAGs; clauses monitored on real results. "
+             "Runner.ordered_layers over registered names (Model/Ordered; several names may resolve to one layer object): "
+             "every registered name is yielded exactly once with the layer it resolves to (C10N_names_once, "
+             "C10N_layer_of_name), the names of a layer side by side and the layers in order_by_bases order (C10N_blocks, "
+             "C10N_bases_first), independent of the order of registration (C10N_perm_invariant); tied to the real method "
+             "on generated layer graphs with aliased names. Whole runs: layer run order of sequential, resumed and -j N "
+             "runs of generated worlds, two runs in one process with layers named by dotted-name strings.",
         note="Python sorted() modelled as stable insertion sort; layer names injective (guard, witness proved); "
              "contiguity of a layer's tests is C03",
         technique="Lean 4 theorems on hand-written model + differential correspondence with real order_by_bases",
